@@ -423,11 +423,13 @@ pub fn run_trie(prop: &str, checks: u32, prefix_text: &str, max_depth: usize, la
     FamilyResult { explorer: "E3".into(), family, complete: !report::stopped(), note: String::new(), stats, wall_s: t0.elapsed().as_secs_f64() }
 }
 
-/// All 5,040 distinct orders of Gold's eight non-rabbit pieces (e m h h d d c c) on a2..h2, rabbits on a1..h1.
+/// All 5,040 distinct orders of Gold's eight non-rabbit pieces (e m h h d d c c) on a2..h2 with rabbits on a1..h1,
+/// and the same 5,040 orders on a1..h1 with the rabbits in front on a2..h2.
 pub fn gold_major_orders() -> Vec<String> {
     fn rec(left: &mut [u8; 5], cur: &mut String, out: &mut Vec<String>) {
         if cur.len() == 8 {
             out.push(format!("{}rrrrrrrr", cur));
+            out.push(format!("rrrrrrrr{}", cur));
             return;
         }
         let letters = ['c', 'd', 'h', 'm', 'e'];
@@ -451,7 +453,7 @@ pub fn gold_major_orders() -> Vec<String> {
 pub fn run_product(prop: &str, checks: u32, depth: usize) -> FamilyResult {
     let t0 = Instant::now();
     let orders = gold_major_orders();
-    let family = format!("E3 product: all {} orders of Gold's major pieces on a2..h2 (rabbits behind) x every Silver placement prefix of length <= {}", orders.len(), depth);
+    let family = format!("E3 product: all {} arrangements of Gold (every order of its 8 major pieces on one home rank, rabbits on the other; both ways round) x (every Silver placement prefix of length <= {} + two complete Silver orders down to the start of play)", orders.len(), depth);
     let fam2 = family.clone();
     let stats = orders
         .par_iter()
@@ -469,6 +471,31 @@ pub fn run_product(prop: &str, checks: u32, depth: usize) -> FamilyResult {
                 }
                 let mut left = COMPLEMENT;
                 node(&mut ctx, &gs, false, 0, &mut left, 0);
+                // two complete Silver orders ("spines") down to the start of play: every state on them is checked with
+                // all its offered placements, the last one with the start-of-play conditions
+                for spine in ["rrrrrrrrhdcmecdh", "mhdcrrrrcdherrrr"] {
+                    let mut g = gs.clone();
+                    let mut left = COMPLEMENT;
+                    let save_depth = ctx.max_depth;
+                    ctx.max_depth = 0;
+                    ctx.path.clear();
+                    for (k, ch) in spine.chars().enumerate() {
+                        node(&mut ctx, &g, false, k, &mut left, 0);
+                        let a: Action = ch.to_string().parse().unwrap();
+                        if let Action::Place(p) = a {
+                            let t = piece_strength(p) as usize;
+                            if left[t] > 0 {
+                                left[t] -= 1;
+                            }
+                        }
+                        if k < 15 {
+                            g = g.take_action(&a);
+                            ctx.path.push(a);
+                        }
+                    }
+                    ctx.path.clear();
+                    ctx.max_depth = save_depth;
+                }
             }));
             if r.is_err() {
                 let q = E3_QUERY.with(|q| q.get());
